@@ -38,7 +38,7 @@ SHARD_TIMEOUT = {'quick': 900, 'thorough': 3000}
 
 def shards(tier, seed):
     n = 16 if tier == 'quick' else 48
-    per = 6 if tier == 'quick' else 25
+    per = 6 if tier == 'quick' else 10
     return [{'shard': 'h%d' % i, 'tier': tier, 'seed': seed, 'histories': per, 'first': i * per} for i in range(n)]
 
 
@@ -194,9 +194,9 @@ def _digest_of(docs, hname, etree, XS):
     txt = re.sub(r'xmlns:\w+="[^"]*"', '', txt)
     txt = re.sub(r'(type|base|ref)="\w+:', r'\1="', txt)     # prefixes are allocated per rendering
     txt = re.sub(r'^(<xs:\w+Type\s*)name="[^"]*"', r'\1', txt)  # the (possibly lazily assigned) name is compared separately
-    txt = re.sub(r'(type|base)="\w+Type(_\w+ParentType)*"', r'\1="LAZYNAME"', txt)   # references to lazily named anonymous types
-    txt = re.sub(r'name="\w+Type(_\w+ParentType)*"', 'name="LAZYNAME"', txt)   # array member elements are named after the lazily named member type
-    seq = ['LAZYNAME' if re.fullmatch(r'\w+Type(_\w+ParentType)*', x or '') else x for x in seq]
+    txt = re.sub(r'(type|base)="\w+Type(_\w+ParentType)*(Array)*"', r'\1="LAZYNAME"', txt)   # references to lazily named anonymous types
+    txt = re.sub(r'name="\w+Type(_\w+ParentType)*(Array)*"', 'name="LAZYNAME"', txt)   # array member elements are named after the lazily named member type
+    seq = ['LAZYNAME' if re.fullmatch(r'\w+Type(_\w+ParentType)*(Array)*', x or '') else x for x in seq]
     txt = re.sub(r'\s+', ' ', txt)
     return {'type': local, 'occ': occ, 'def': hashlib.sha1(txt.encode()).hexdigest()[:12], 'seq': seq, 'text': txt[:3000]}
 
